@@ -181,7 +181,10 @@ def discretize_arc(points, close=False, scale=1.0):
     count = np.max([count_a, count_l])
     # force at LEAST 4 points for the arc
     # otherwise the endpoints will diverge
-    count = np.clip(count, 4, np.inf)
+    # and force at MOST a fixed number of points: `scale` defaults to
+    # 1.0 (i.e. in `Arc.bounds`) so an arc with a large radius asks
+    # for `radius / 0.05` points, which exhausts memory quickly
+    count = np.clip(count, 4, 100000)
     count = int(np.ceil(count))
 
     V1 = util.unitize(points[0] - center)
